@@ -147,6 +147,8 @@ func (h *NtfnsHandler) Start() error {
 		}
 	}
 
+	h.initTaskChan()
+
 	h.quitWg.Add(2)
 	go handle(h)
 	go worker(h)
@@ -747,10 +749,10 @@ func (h *NtfnsHandler) reorg(dbtx mwdb.DBTransaction, currentBest txmgr.BlockMet
 	return nil
 }
 
-func worker(h *NtfnsHandler) {
-	defer Recover()
-	defer h.quitWg.Done()
-
+// initTaskChan creates the task queue and re-queues unfinished imports/removals.
+// It runs before the goroutines start, so the queue exists (and is published
+// with a happens-before edge) when API calls and the worker first use it.
+func (h *NtfnsHandler) initTaskChan() {
 	mwdb.View(h.walletMgr.db, func(tx mwdb.ReadTransaction) error {
 		wss, err := h.walletMgr.syncStore.GetAllWalletStatus(tx)
 		if err != nil {
@@ -781,6 +783,11 @@ func worker(h *NtfnsHandler) {
 		}
 		return nil
 	})
+}
+
+func worker(h *NtfnsHandler) {
+	defer Recover()
+	defer h.quitWg.Done()
 
 	for {
 		select {
